@@ -294,6 +294,229 @@ pub proof fn lemma_rm_items_fifo<T, OT>(h0: Seq<Call<T, OT>>, items: Seq<(Option
     }
 //@end
 
+//@fn name=rolling_custom crate=tea-core ctx="impl<T: Clone> Vec1View<T> for Vec<T>" as=vec_rolling_custom props=C02,C05,C07,C10 arith=C10
+//@sig fn vec_rolling_custom<V: Vec1View<T>, T, O: Vec1<OT>, OT, F: SliceFn<V::Slice, T, OT>>(this: &V, window: usize, f: &mut F, out: Option<&mut O::Buf>) -> (r: Option<O>)
+//@strip_turbofish
+//@replace use crate::prelude::UninitVec; =>
+//@replace this.rolling_custom_to( => rolling_custom_to(this,
+//@replace O::uninit(len) => uninit_buf::<O, OT>(len)
+//@replace O::uninit_ref_mut(&mut out) => &mut out
+//@replace out.assume_init() => assume_init_buf::<O, OT>(out)
+//@spec
+    requires
+        old(f).hist().len() == 0,
+        old(f).inv(),
+        this.supports_slice(),
+        forall|s: &V::Slice| #[trigger] F::sview(s) == V::slice_view(s),
+        out matches Some(o) ==> buf_fresh(o, this.view().len()),
+        (window == 0 && out.is_none() && this.view().len() > 0) ==> panic_allowed(),
+    ensures
+        final(f).inv(),
+        final(f).cfg() == old(f).cfg(),
+        window >= 1 ==> trace_slice(final(f).hist(), this.view(), wclamp(window, this.view().len())),                   // #C02,C07 slice_is_window
+        window >= 1 ==> delivered(r, match out { Some(o) => Some(final(o).written()), None => None }, outs_slice(final(f).hist())),   // #C02,C05,C07 delivered_to_buffer_or_returned
+        window == 0 ==> final(f).hist() =~= old(f).hist(),
+        (window == 0 && out.is_some()) ==> r.is_none() && (out matches Some(o) ==> final(o).written() =~= o.written()),
+        (window == 0 && out.is_none() && this.view().len() == 0) ==> r.is_some() && r.unwrap().oview().len() == 0,
+//@at body last
+    proof {
+        if window >= 1 && out.is_none() {
+            assert(__ret.unwrap().oview() =~= outs_slice(f.hist()));
+        }
+    }
+//@end
+
+//@fn name=rolling2_apply_idx crate=tea-core ctx="impl<T: Clone> Vec1View<T> for Vec<T>" as=vec_rolling2_apply_idx props=C02,C05,C07,C10 arith=C10
+//@sig fn vec_rolling2_apply_idx<V: Vec1View<T>, T, O: Vec1<OT>, OT, V2: Vec1View<T2>, T2, F: RollingIdxFn<(T, T2), OT>>(this: &V, other: &V2, window: usize, f: &mut F, out: Option<&mut O::Buf>) -> (r: Option<O>)
+//@strip_turbofish
+//@replace this.rolling2_apply_idx_to( => rolling2_apply_idx_to(this,
+//@replace O::uninit(len) => uninit_buf::<O, OT>(len)
+//@replace O::uninit_ref_mut(&mut out) => &mut out
+//@replace out.assume_init() => assume_init_buf::<O, OT>(out)
+//@spec
+    requires
+        old(f).hist().len() == 0,
+        old(f).inv(),
+        old(f).series() == zipv(this.view(), other.view()),
+        other.view().len() < this.view().len() ==> panic_allowed(),
+        out matches Some(o) ==> buf_fresh(o, this.view().len()),
+        (window == 0 && out.is_none() && this.view().len() > 0) ==> panic_allowed(),
+    ensures
+        final(f).inv(),
+        final(f).cfg() == old(f).cfg(),
+        final(f).series() == old(f).series(),
+        window >= 1 ==> trace_idx_strict(final(f).hist(), zipv(this.view(), other.view()), window),             // #C02,C07 trace
+        window >= 1 ==> delivered(r, match out { Some(o) => Some(final(o).written()), None => None }, outs_idx(final(f).hist())),   // #C02,C05,C07 delivered_to_buffer_or_returned
+        window == 0 ==> final(f).hist() =~= old(f).hist(),
+        (window == 0 && out.is_some()) ==> r.is_none() && (out matches Some(o) ==> final(o).written() =~= o.written()),
+        (window == 0 && out.is_none() && this.view().len() == 0) ==> r.is_some() && r.unwrap().oview().len() == 0,
+//@at body last
+    proof {
+        if window >= 1 && out.is_none() {
+            assert(__ret.unwrap().oview() =~= outs_idx(f.hist()));
+        }
+    }
+//@end
+
+// ---- the ndarray fast paths (impl_vec1view_for_ndarray! in backends_impl/ndarray.rs, feature `ndarray`; the three impls come from one
+// macro body, the ArrayView1 instance is extracted): same shape and same contract as the Vec fast paths.  The array itself is the
+// abstract Vec1View (len / uget describe the logical sequence: bounded Kani harnesses k_nd check that on strided and reversed views).
+//@fn name=rolling_apply crate=tea-core ctx="impl<'t, T: Clone> Vec1View<T> for ArrayView1<'t, T>" features=ndarray as=nd_rolling_apply props=C02,C05,C07,C10 arith=C10
+//@sig fn nd_rolling_apply<V: Vec1View<T>, T, O: Vec1<OT>, OT, F: RollingFn<T, OT>>(this: &V, window: usize, f: &mut F, out: Option<&mut O::Buf>) -> (r: Option<O>)
+//@strip_turbofish
+//@replace this.rolling_apply_to( => rolling_apply_to(this,
+//@replace O::uninit(len) => uninit_buf::<O, OT>(len)
+//@replace O::uninit_ref_mut(&mut out) => &mut out
+//@replace out.assume_init() => assume_init_buf::<O, OT>(out)
+//@spec
+    requires
+        old(f).hist().len() == 0,
+        old(f).inv(),
+        all_elem_ok::<T, OT, F>(this.view()),
+        out matches Some(o) ==> buf_fresh(o, this.view().len()),
+        (window == 0 && out.is_none() && this.view().len() > 0) ==> panic_allowed(),
+    ensures
+        final(f).inv(),
+        final(f).cfg() == old(f).cfg(),
+        window >= 1 ==> trace_ok(final(f).hist(), this.view(), window),                                  // #C02,C07 trace
+        window >= 1 ==> delivered(r, match out { Some(o) => Some(final(o).written()), None => None }, outs(final(f).hist())),   // #C02,C05,C07 delivered_to_buffer_or_returned
+        window == 0 ==> final(f).hist() =~= old(f).hist(),
+        (window == 0 && out.is_some()) ==> r.is_none() && (out matches Some(o) ==> final(o).written() =~= o.written()),
+        (window == 0 && out.is_none() && this.view().len() == 0) ==> r.is_some() && r.unwrap().oview().len() == 0,
+//@at body last
+    proof {
+        if window >= 1 && out.is_none() {
+            assert(__ret.unwrap().oview() =~= outs(f.hist()));
+        }
+    }
+//@end
+
+//@fn name=rolling_apply_idx crate=tea-core ctx="impl<'t, T: Clone> Vec1View<T> for ArrayView1<'t, T>" features=ndarray as=nd_rolling_apply_idx props=C02,C05,C07,C10 arith=C10
+//@sig fn nd_rolling_apply_idx<V: Vec1View<T>, T, O: Vec1<OT>, OT, F: RollingIdxFn<T, OT>>(this: &V, window: usize, f: &mut F, out: Option<&mut O::Buf>) -> (r: Option<O>)
+//@strip_turbofish
+//@replace this.rolling_apply_idx_to( => rolling_apply_idx_to(this,
+//@replace O::uninit(len) => uninit_buf::<O, OT>(len)
+//@replace O::uninit_ref_mut(&mut out) => &mut out
+//@replace out.assume_init() => assume_init_buf::<O, OT>(out)
+//@spec
+    requires
+        old(f).hist().len() == 0,
+        old(f).inv(),
+        old(f).series() == this.view(),
+        out matches Some(o) ==> buf_fresh(o, this.view().len()),
+        (window == 0 && out.is_none() && this.view().len() > 0) ==> panic_allowed(),
+    ensures
+        final(f).inv(),
+        final(f).cfg() == old(f).cfg(),
+        final(f).series() == old(f).series(),
+        window >= 1 ==> trace_idx_ok(final(f).hist(), this.view(), window),                               // #C02,C07 trace
+        window >= 1 ==> delivered(r, match out { Some(o) => Some(final(o).written()), None => None }, outs_idx(final(f).hist())),   // #C02,C05,C07 delivered_to_buffer_or_returned
+        window == 0 ==> final(f).hist() =~= old(f).hist(),
+        (window == 0 && out.is_some()) ==> r.is_none() && (out matches Some(o) ==> final(o).written() =~= o.written()),
+        (window == 0 && out.is_none() && this.view().len() == 0) ==> r.is_some() && r.unwrap().oview().len() == 0,
+//@at body last
+    proof {
+        if window >= 1 && out.is_none() {
+            assert(__ret.unwrap().oview() =~= outs_idx(f.hist()));
+        }
+    }
+//@end
+
+//@fn name=rolling2_apply crate=tea-core ctx="impl<'t, T: Clone> Vec1View<T> for ArrayView1<'t, T>" features=ndarray as=nd_rolling2_apply props=C02,C05,C07,C10 arith=C10
+//@sig fn nd_rolling2_apply<V: Vec1View<T>, T, O: Vec1<OT>, OT, V2: Vec1View<T2>, T2, F: RollingFn<(T, T2), OT>>(this: &V, other: &V2, window: usize, f: &mut F, out: Option<&mut O::Buf>) -> (r: Option<O>)
+//@strip_turbofish
+//@replace this.rolling2_apply_to( => rolling2_apply_to(this,
+//@replace O::uninit(len) => uninit_buf::<O, OT>(len)
+//@replace O::uninit_ref_mut(&mut out) => &mut out
+//@replace out.assume_init() => assume_init_buf::<O, OT>(out)
+//@spec
+    requires
+        old(f).hist().len() == 0,
+        old(f).inv(),
+        other.view().len() >= this.view().len() ==> all_elem_ok::<(T, T2), OT, F>(zipv(this.view(), other.view())),
+        other.view().len() < this.view().len() ==> panic_allowed(),
+        out matches Some(o) ==> buf_fresh(o, this.view().len()),
+        (window == 0 && out.is_none() && this.view().len() > 0) ==> panic_allowed(),
+    ensures
+        final(f).inv(),
+        final(f).cfg() == old(f).cfg(),
+        window >= 1 ==> trace_ok(final(f).hist(), zipv(this.view(), other.view()), window),                  // #C02,C07 trace
+        window >= 1 ==> delivered(r, match out { Some(o) => Some(final(o).written()), None => None }, outs(final(f).hist())),   // #C02,C05,C07 delivered_to_buffer_or_returned
+        window == 0 ==> final(f).hist() =~= old(f).hist(),
+        (window == 0 && out.is_some()) ==> r.is_none() && (out matches Some(o) ==> final(o).written() =~= o.written()),
+        (window == 0 && out.is_none() && this.view().len() == 0) ==> r.is_some() && r.unwrap().oview().len() == 0,
+//@at body last
+    proof {
+        if window >= 1 && out.is_none() {
+            assert(__ret.unwrap().oview() =~= outs(f.hist()));
+        }
+    }
+//@end
+
+//@fn name=rolling_custom crate=tea-core ctx="impl<'t, T: Clone> Vec1View<T> for ArrayView1<'t, T>" features=ndarray as=nd_rolling_custom props=C02,C05,C07,C10 arith=C10
+//@sig fn nd_rolling_custom<V: Vec1View<T>, T, O: Vec1<OT>, OT, F: SliceFn<V::Slice, T, OT>>(this: &V, window: usize, f: &mut F, out: Option<&mut O::Buf>) -> (r: Option<O>)
+//@strip_turbofish
+//@replace use crate::prelude::UninitVec; =>
+//@replace this.rolling_custom_to( => rolling_custom_to(this,
+//@replace O::uninit(len) => uninit_buf::<O, OT>(len)
+//@replace O::uninit_ref_mut(&mut out) => &mut out
+//@replace out.assume_init() => assume_init_buf::<O, OT>(out)
+//@spec
+    requires
+        old(f).hist().len() == 0,
+        old(f).inv(),
+        this.supports_slice(),
+        forall|s: &V::Slice| #[trigger] F::sview(s) == V::slice_view(s),
+        out matches Some(o) ==> buf_fresh(o, this.view().len()),
+        (window == 0 && out.is_none() && this.view().len() > 0) ==> panic_allowed(),
+    ensures
+        final(f).inv(),
+        final(f).cfg() == old(f).cfg(),
+        window >= 1 ==> trace_slice(final(f).hist(), this.view(), wclamp(window, this.view().len())),                   // #C02,C07 slice_is_window
+        window >= 1 ==> delivered(r, match out { Some(o) => Some(final(o).written()), None => None }, outs_slice(final(f).hist())),   // #C02,C05,C07 delivered_to_buffer_or_returned
+        window == 0 ==> final(f).hist() =~= old(f).hist(),
+        (window == 0 && out.is_some()) ==> r.is_none() && (out matches Some(o) ==> final(o).written() =~= o.written()),
+        (window == 0 && out.is_none() && this.view().len() == 0) ==> r.is_some() && r.unwrap().oview().len() == 0,
+//@at body last
+    proof {
+        if window >= 1 && out.is_none() {
+            assert(__ret.unwrap().oview() =~= outs_slice(f.hist()));
+        }
+    }
+//@end
+
+//@fn name=rolling2_apply_idx crate=tea-core ctx="impl<'t, T: Clone> Vec1View<T> for ArrayView1<'t, T>" features=ndarray as=nd_rolling2_apply_idx props=C02,C05,C07,C10 arith=C10
+//@sig fn nd_rolling2_apply_idx<V: Vec1View<T>, T, O: Vec1<OT>, OT, V2: Vec1View<T2>, T2, F: RollingIdxFn<(T, T2), OT>>(this: &V, other: &V2, window: usize, f: &mut F, out: Option<&mut O::Buf>) -> (r: Option<O>)
+//@strip_turbofish
+//@replace this.rolling2_apply_idx_to( => rolling2_apply_idx_to(this,
+//@replace O::uninit(len) => uninit_buf::<O, OT>(len)
+//@replace O::uninit_ref_mut(&mut out) => &mut out
+//@replace out.assume_init() => assume_init_buf::<O, OT>(out)
+//@spec
+    requires
+        old(f).hist().len() == 0,
+        old(f).inv(),
+        old(f).series() == zipv(this.view(), other.view()),
+        other.view().len() < this.view().len() ==> panic_allowed(),
+        out matches Some(o) ==> buf_fresh(o, this.view().len()),
+        (window == 0 && out.is_none() && this.view().len() > 0) ==> panic_allowed(),
+    ensures
+        final(f).inv(),
+        final(f).cfg() == old(f).cfg(),
+        final(f).series() == old(f).series(),
+        window >= 1 ==> trace_idx_strict(final(f).hist(), zipv(this.view(), other.view()), window),             // #C02,C07 trace
+        window >= 1 ==> delivered(r, match out { Some(o) => Some(final(o).written()), None => None }, outs_idx(final(f).hist())),   // #C02,C05,C07 delivered_to_buffer_or_returned
+        window == 0 ==> final(f).hist() =~= old(f).hist(),
+        (window == 0 && out.is_some()) ==> r.is_none() && (out matches Some(o) ==> final(o).written() =~= o.written()),
+        (window == 0 && out.is_none() && this.view().len() == 0) ==> r.is_some() && r.unwrap().oview().len() == 0,
+//@at body last
+    proof {
+        if window >= 1 && out.is_none() {
+            assert(__ret.unwrap().oview() =~= outs_idx(f.hist()));
+        }
+    }
+//@end
+
 // ---- linkage: the trait contract that every client unit (feat, featp, cmp, bin, reg) ASSUMES for the Option-form drivers is
 // discharged here by the functions proved above from the extracted bodies (Verus checks each impl method against the trait's
 // requires / ensures in prelude.rs).  What stays assumed is A-ITER for the stateful `map` (rollmodel.rs), not the drivers.
